@@ -37,6 +37,12 @@ Inductive ccase :=
        (exp_err exp_count : N) (exp_fields : list value) (impl_alloc : N)
 | CStart (input : bytes) (exp_err : N) (exp_id exp_typ : N) (exp_name : string)
          (exp_fields : list value) (impl_alloc : N)
+| CReal (typ : N) (sent_name : string) (sent : list value)      (* the call the client was asked to make *)
+        (input : bytes)                                          (* the frame the peer received from the real client *)
+        (exp_err exp_id exp_typ : N) (exp_name : string) (exp_fields : list value) (impl_alloc : N)
+                                                                 (* ... through the real startCall *)
+        (rname : string) (cap : N) (reply : bytes)               (* the reply frame the peer sent *)
+        (exp_rerr : N) (exp_rfields : list value)                (* what the caller got: 0 ok, 1 eof, 3 overflow, 5 no answer *)
 | CHRead (maxRead : Z) (avail : N) (exp_crash : bool) (exp_n exp_code : N)
 | CTRead (buflen replylen : N) (exp_ok : bool) (exp_n : N).
 
@@ -82,6 +88,42 @@ Definition check_case_with (schs : list (string * schema)) (tbl : request_table)
       | CReq id t name vs =>
           (exp_err =? 0) && (id =? exp_id) && (t =? exp_typ) &&
           String.eqb exp_name name && list_eqb value_eqb vs exp_fields
+      end
+  | CReal typ sent_name sent input exp_err exp_id exp_typ exp_name exp_fields impl_alloc rname cap reply
+          exp_rerr exp_rfields =>
+      (* the client put exactly the modelled request frame on the wire (first call: id 0) *)
+      match assoc_str sent_name schs with
+      | Some sch => kinds_match sch sent && bytes_eqb (request_frame 0 typ (enc_schema sch sent)) input
+      | None => false
+      end &&
+      (* the server entry reads it back *)
+      (let '(r, d) := start_call gen_alloc_max tbl input in
+       alloc_agrees impl_alloc (alloc d) (lenN input) &&
+       match r with
+       | CErr e => err_code (Some e) =? exp_err
+       | CUnknown id t =>
+           (exp_err =? 0) && (id =? exp_id) && (t =? exp_typ) &&
+           String.eqb exp_name "" && list_eqb value_eqb [] exp_fields
+       | CReq id t name vs =>
+           (exp_err =? 0) && (id =? exp_id) && (t =? exp_typ) &&
+           String.eqb exp_name name && list_eqb value_eqb vs exp_fields
+       end) &&
+      (* the caller gets what the client-side decode of the reply frame gives *)
+      match assoc_str rname schs with
+      | Some rsch =>
+          match client_decode gen_alloc_max cap rsch reply with
+          | (HReply _ _, Some (vs, d)) =>
+              match err d with
+              | None => (exp_rerr =? 0) && list_eqb value_eqb vs exp_rfields
+              | Some EEof => exp_rerr =? 1
+              | Some ETooLong => exp_rerr =? 3
+              | Some _ => false
+              end
+          | (HRemoteError _, _) => exp_rerr =? 1      (* the transport ends; the call is completed with eof *)
+          | (HShort _, _) => exp_rerr =? 5            (* logged and ignored: no answer *)
+          | (HReply _ _, None) => false
+          end
+      | None => false
       end
   | CHRead maxRead avail exp_crash exp_n exp_code =>
       match handle_read gen_max_read_size maxRead avail with
